@@ -61,6 +61,21 @@ def schedule_rle():
     return [list(x) for x in SIM.schedule]
 
 
+def without_replay(s):
+    return {k: v for k, v in s.items() if k != 'replay'}
+
+
+def pin_with(run_under_test, case):
+    """Execute ``run_under_test(case)`` (which must perform, as its last simulated
+    execution, the run whose interleaving matters) and return a copy of the case whose
+    schedule config carries the recorded thread choices."""
+    import copy
+    run_under_test(case)
+    c = copy.deepcopy(case)
+    c['sched'] = dict(c['sched'], replay=schedule_rle(), strategy='replay-of-' + str(case['sched'].get('strategy')))
+    return c
+
+
 def sig_key(summ):
     """Conflict-relevant projection of a run, for counting distinct interleavings."""
     return [summ['regions'], summ['switches'] if summ['switches'] < 8 else '8+', summ['conflicts'] > 0]
